@@ -466,8 +466,8 @@ pub fn run(ctx: &mut Ctx) {
 	ctx.assume("diff(A,B) is only required to succeed when every entry has a name in the target namespace");
 	ctx.assume("a None node for an absent target and child diffs below a removed node are unspecified by the statement: either outcome accepted, counted as outcome:unspecified");
 
-	ctx.run_sub("inverse", ctx.tier.pick(32000, 1500000), pair_strategy, inverse_law);
-	ctx.run_sub("apply_vs_reference", ctx.tier.pick(48000, 3000000), apply_strategy, apply_dispatch);
+	ctx.run_sub("inverse", ctx.tier.pick(96000, 1500000), pair_strategy, inverse_law);
+	ctx.run_sub("apply_vs_reference", ctx.tier.pick(144000, 3000000), apply_strategy, apply_dispatch);
 
 	ctx.run_enum("option_table", |rec| {
 		let x = "x".to_string();
